@@ -72,7 +72,7 @@ func H_C20_weights_dirichlet_deep() {
 // H_C20_weights_gamma: BuildWeightsGamma (gamma variates fitted to the binomial of the bootstrap, shape L/(L-1) > 1: Cheng's sampler): one strictly positive finite weight per site, summing to the alignment length.
 // bounds: L = 3, at most 8 draws of math/rand per path (6 needed: at least one full rejection)
 // outside: L = 4 and more rejections (thorough twin); IEEE rounding is outside the claim: floats are exact reals; ln/exp/sqrt uninterpreted
-//verif: maxrand=8 maxsteps=200000
+//verif: maxrand=6 maxsteps=200000
 func H_C20_weights_gamma() {
 	vfC20CheckWeights(BuildWeightsGamma(vfC20Align(3)), 3)
 }
